@@ -11,6 +11,7 @@ CONSTANTS Threads,     \* logical frontend threads (strings)
           NFlush,      \* flush_log calls per thread at most
           Sizes,       \* record sizes (bytes) of log statements
           FlushSz,     \* record size of a flush request
+          RmSz,        \* record size of a logger removal request (flag pointer + logger name)
           Bounded, Dropping,  \* queue type
           Cap,         \* queue capacity in bytes (bounded) / bytes read per pass limit
           Batch,       \* reader publish batch in bytes (EXTRACTED)
@@ -31,14 +32,16 @@ VARIABLES now,
           cache, ring,                              \* backend: context cache (sequence), per-thread transit ring (records)
           bpc, bi, tsNow, batchMode, lastIdle, flushWho, \* backend program counter
           written, flushedTo,                       \* the sink: records written, prefix covered by a flush
+          rmWait, rmDone,                           \* remove_logger_blocking: logger -> waiting thread ("" = none, known to the backend); thread -> released
           lgValid, lgPresent, hasInval, acc,        \* logger registry: valid flag, still registered, invalidated-loggers flag; accepted ids
           nid, dropped, reported, anyLate, bad, hist
 
 vars == <<now, fpc, cur, nlog, nflush, need, flag, q, wpos, rpos, rpub, fail, valid, reg, ctxs, newFlag, invalidCnt,
-          cache, ring, bpc, bi, tsNow, batchMode, lastIdle, flushWho, written, flushedTo, lgValid, lgPresent, hasInval, acc,
+          cache, ring, bpc, bi, tsNow, batchMode, lastIdle, flushWho, written, flushedTo, rmWait, rmDone, lgValid, lgPresent, hasInval, acc,
           nid, dropped, reported, anyLate, bad, hist>>
 Inf == 1000000
 LgVars == <<lgValid, lgPresent, hasInval>>
+RmVars == <<rmWait, rmDone>>
 Range(s) == {s[i] : i \in 1..Len(s)}
 NoRec == [id |-> 0, t |-> "", sz |-> 0, ts |-> 0, kind |-> "none", lg |-> ""]
 
@@ -50,6 +53,7 @@ Init ==
   /\ fail = [t \in Threads |-> 0] /\ valid = [t \in Threads |-> TRUE] /\ reg = [t \in Threads |-> FALSE]
   /\ ctxs = <<>> /\ newFlag = FALSE /\ invalidCnt = 0 /\ cache = <<>> /\ ring = [t \in Threads |-> <<>>]
   /\ bpc = "start" /\ bi = 1 /\ tsNow = Inf /\ batchMode = FALSE /\ lastIdle = FALSE /\ flushWho = ""
+  /\ rmWait = [l \in Loggers |-> ""] /\ rmDone = [t \in Threads |-> FALSE]
   /\ lgValid = [l \in Loggers |-> TRUE] /\ lgPresent = [l \in Loggers |-> TRUE] /\ hasInval = FALSE /\ acc = {}
   /\ written = <<>> /\ flushedTo = 0 /\ nid = 0 /\ dropped = {} /\ reported = 0 /\ anyLate = FALSE /\ bad = "" /\ hist = <<>>
 
@@ -68,7 +72,7 @@ Fits(t, sz) == ~Bounded \/ Free(t) >= sz
 
 \* first half of a log call: level check passed, clock read (every read advances the clock), context registered
 LogStart(t, sz, l) ==
-  /\ UNCHANGED LgVars /\ UNCHANGED acc
+  /\ UNCHANGED LgVars /\ UNCHANGED acc /\ UNCHANGED RmVars
   /\ fpc[t] = "idle" /\ nlog[t] < NStmt /\ now < MaxTime /\ lgValid[l]
   /\ now' = now + 1 /\ nid' = nid + 1
   /\ cur' = [cur EXCEPT ![t] = [id |-> nid + 1, t |-> t, sz |-> sz, ts |-> now + 1, kind |-> "log", lg |-> l]]
@@ -105,7 +109,7 @@ TryEnqueue(t, act) ==
 
 \* the thread's context is created and registered on its first call, after the clock read
 Enqueue(t) ==
-  /\ UNCHANGED LgVars
+  /\ UNCHANGED LgVars /\ UNCHANGED RmVars
   /\ fpc[t] = "ts"
   /\ TryEnqueue(t, "enqueue")
   /\ IF reg[t] THEN UNCHANGED <<reg, ctxs, newFlag>>
@@ -114,7 +118,7 @@ Enqueue(t) ==
                  lastIdle, flushWho, written, flushedTo, nid, reported, bad>>
 
 Retry(t) ==
-  /\ UNCHANGED LgVars
+  /\ UNCHANGED LgVars /\ UNCHANGED RmVars
   /\ fpc[t] = "blocked"
   /\ TryEnqueue(t, "retry")
   /\ UNCHANGED <<now, nlog, nflush, need, flag, rpos, rpub, valid, reg, ctxs, newFlag, invalidCnt, cache, ring, bpc, bi, tsNow, batchMode,
@@ -126,7 +130,7 @@ AllEnqueuedLog == {x.id : x \in {y \in UNION {Range(q[u]) \cup Range(ring[u]) : 
 OwnEnqueuedLog(t) == {x.id : x \in {y \in UNION {Range(q[u]) \cup Range(ring[u]) : u \in Threads} \cup Range(written) : y.kind = "log" /\ y.t = t}}
 
 FlushStart(t) ==
-  /\ UNCHANGED LgVars /\ UNCHANGED acc
+  /\ UNCHANGED LgVars /\ UNCHANGED acc /\ UNCHANGED RmVars
   /\ fpc[t] = "idle" /\ nflush[t] < NFlush /\ now < MaxTime
   /\ now' = now + 1 /\ nid' = nid + 1 /\ nflush' = [nflush EXCEPT ![t] = @ + 1]
   /\ need' = [need EXCEPT ![t] = IF Grace > 0 THEN AllEnqueuedLog ELSE OwnEnqueuedLog(t)]
@@ -144,7 +148,7 @@ FlushStart(t) ==
 
 \* one iteration of the caller's wait loop
 FlushCheck(t) ==
-  /\ UNCHANGED LgVars /\ UNCHANGED acc
+  /\ UNCHANGED LgVars /\ UNCHANGED acc /\ UNCHANGED RmVars
   /\ fpc[t] = "flushwait"
   /\ IF flag[t]
      THEN /\ fpc' = [fpc EXCEPT ![t] = "idle"]
@@ -157,7 +161,7 @@ FlushCheck(t) ==
                  bpc, bi, tsNow, batchMode, lastIdle, flushWho, written, flushedTo, nid, dropped, reported, anyLate>>
 
 ThreadExit(t) ==
-  /\ UNCHANGED LgVars /\ UNCHANGED acc
+  /\ UNCHANGED LgVars /\ UNCHANGED acc /\ UNCHANGED RmVars
   /\ AllowExit /\ fpc[t] = "idle" /\ reg[t] /\ valid[t]
   /\ fpc' = [fpc EXCEPT ![t] = "done"] /\ valid' = [valid EXCEPT ![t] = FALSE] /\ invalidCnt' = invalidCnt + 1
   /\ UNCHANGED <<now, cur, nlog, nflush, need, flag, q, wpos, rpos, rpub, fail, reg, ctxs, newFlag, cache, ring, bpc, bi, tsNow,
@@ -169,11 +173,42 @@ RemoveLogger(l) ==
   /\ AllowRemove /\ lgValid[l] /\ \A t \in Threads : cur[t].lg # l
   /\ lgValid' = [lgValid EXCEPT ![l] = FALSE] /\ hasInval' = TRUE
   /\ UNCHANGED <<now, fpc, cur, nlog, nflush, need, flag, q, wpos, rpos, rpub, fail, valid, reg, ctxs, newFlag, invalidCnt, cache, ring,
-                 bpc, bi, tsNow, batchMode, lastIdle, flushWho, written, flushedTo, lgPresent, acc, nid, dropped, reported, anyLate, bad>>
+                 bpc, bi, tsNow, batchMode, lastIdle, flushWho, written, flushedTo, rmWait, rmDone, lgPresent, acc, nid, dropped, reported,
+                 anyLate, bad>>
   /\ Step("D", "remove", <<l>>, <<[k |-> "remove", lg |-> l]>>)
 
+\* remove_logger_blocking(l): clock read + enqueue of the request (retried like a flush request when it does not fit), then
+\* remove_logger(l), up to the first sleep of the wait loop. (One action: the enqueue and the invalidation are not separated by
+\* a yield point of the harness when the request fits; when it does not, the call parks in the retry loop first.)
+RemoveBlockingStart(t, l) ==
+  /\ AllowRemove /\ lgValid[l] /\ fpc[t] = "idle" /\ now < MaxTime /\ \A u \in Threads : cur[u].lg # l
+  /\ Fits(t, RmSz)                      \* (the retry case is exercised by flush requests; keep this action simple)
+  /\ now' = now + 1 /\ nid' = nid + 1
+  /\ IF reg[t] THEN UNCHANGED <<reg, ctxs, newFlag>>
+     ELSE reg' = [reg EXCEPT ![t] = TRUE] /\ ctxs' = Append(ctxs, t) /\ newFlag' = TRUE
+  /\ q' = [q EXCEPT ![t] = Append(@, [id |-> nid + 1, t |-> t, sz |-> RmSz, ts |-> now + 1, kind |-> "rmreq", lg |-> l])]
+  /\ wpos' = [wpos EXCEPT ![t] = @ + RmSz]
+  /\ lgValid' = [lgValid EXCEPT ![l] = FALSE] /\ hasInval' = TRUE
+  /\ fpc' = [fpc EXCEPT ![t] = "rmwait"] /\ cur' = [cur EXCEPT ![t] = [NoRec EXCEPT !.lg = l]]
+  /\ rmDone' = [rmDone EXCEPT ![t] = FALSE]
+  /\ UNCHANGED <<nlog, nflush, need, flag, rpos, rpub, fail, valid, invalidCnt, cache, ring, bpc, bi, tsNow, batchMode, lastIdle, flushWho,
+                 written, flushedTo, rmWait, lgPresent, acc, dropped, reported, anyLate, bad>>
+  /\ Step(t, "rmbstart", <<l>>, <<[k |-> "ctxuse", t |-> t], [k |-> "remove", lg |-> l]>>)
+
+RemoveBlockingCheck(t) ==
+  /\ fpc[t] = "rmwait"
+  /\ UNCHANGED LgVars /\ UNCHANGED acc /\ UNCHANGED RmVars
+  /\ IF rmDone[t]
+     THEN /\ fpc' = [fpc EXCEPT ![t] = "idle"] /\ cur' = [cur EXCEPT ![t] = NoRec]
+          \* C17 on the model: the call returns only after the removal has completed
+          /\ bad' = Fail(~lgPresent[cur[t].lg], "C17: remove_logger_blocking returned before the logger was removed")
+          /\ Step(t, "rmbcheck", <<>>, <<[k |-> "removebret", lg |-> cur[t].lg, n |-> Cardinality({l \in Loggers : lgPresent[l]})]>>)
+     ELSE /\ UNCHANGED <<fpc, cur, bad>> /\ Step(t, "rmbcheck", <<>>, <<>>)
+  /\ UNCHANGED <<now, nlog, nflush, need, flag, q, wpos, rpos, rpub, fail, valid, reg, ctxs, newFlag, invalidCnt, cache, ring,
+                 bpc, bi, tsNow, batchMode, lastIdle, flushWho, written, flushedTo, nid, dropped, reported, anyLate>>
+
 Tick ==
-  /\ UNCHANGED LgVars /\ UNCHANGED acc
+  /\ UNCHANGED LgVars /\ UNCHANGED acc /\ UNCHANGED RmVars
   /\ Grace > 0 /\ now < MaxTime /\ now' = now + 1
   /\ UNCHANGED <<fpc, cur, nlog, nflush, need, flag, q, wpos, rpos, rpub, fail, valid, reg, ctxs, newFlag, invalidCnt, cache, ring,
                  bpc, bi, tsNow, batchMode, lastIdle, flushWho, written, flushedTo, nid, dropped, reported, anyLate, bad>>
@@ -185,7 +220,7 @@ Total(rg, c) == LET f[i \in 0..Len(c)] == IF i = 0 THEN 0 ELSE f[i - 1] + Len(rg
 HasPending(c) == \E i \in 1..Len(c) : ring[c[i]] = <<>> /\ q[c[i]] # <<>>
 
 BStart ==
-  /\ UNCHANGED LgVars /\ UNCHANGED acc
+  /\ UNCHANGED LgVars /\ UNCHANGED acc /\ UNCHANGED RmVars
   /\ bpc = "start"
   /\ cache' = Reload(cache) /\ newFlag' = FALSE
   /\ IF Grace > 0 THEN now < MaxTime /\ now' = now + 1 /\ tsNow' = now + 1 - Grace ELSE UNCHANGED now /\ tsNow' = Inf
@@ -206,7 +241,7 @@ RECURSIVE SumSz(_)
 SumSz(s) == IF s = <<>> THEN 0 ELSE Head(s).sz + SumSz(Tail(s))
 
 BRead ==
-  /\ UNCHANGED LgVars /\ UNCHANGED acc
+  /\ UNCHANGED LgVars /\ UNCHANGED acc /\ UNCHANGED rmDone
   /\ bpc = "pop"
   /\ LET t == cache[bi]
          k == Take(q[t], Len(ring[t]), 0, 0)
@@ -222,6 +257,8 @@ BRead ==
          \* batch path: has_pending_events_for_caching_when_transit_event_buffer_empty() reloads the cache first
          c2 == IF batch THEN Reload(cache) ELSE cache
          qOf(u) == IF u = t THEN rest ELSE q[u] IN
+     \* decoding a LoggerRemovalRequest registers the caller's flag under the logger's name
+     /\ rmWait' = [l \in Loggers |-> IF \E i \in 1..Len(taken) : taken[i].kind = "rmreq" /\ taken[i].lg = l THEN t ELSE rmWait[l]]
      /\ q' = [q EXCEPT ![t] = rest] /\ ring' = rg2 /\ rpos' = [rpos EXCEPT ![t] = r2]
      /\ rpub' = [rpub EXCEPT ![t] = IF pub THEN r2 ELSE @]
      /\ cache' = c2 /\ newFlag' = IF batch THEN FALSE ELSE newFlag
@@ -253,7 +290,7 @@ MinIdx(c) == LET cand == {i \in 1..Len(c) : ring[c[i]] # <<>>} IN
              ELSE CHOOSE i \in cand : \A j \in cand : Head(ring[c[i]]).ts < Head(ring[c[j]]).ts \/ (Head(ring[c[i]]).ts = Head(ring[c[j]]).ts /\ i <= j)
 
 BProc ==
-  /\ UNCHANGED LgVars /\ UNCHANGED acc
+  /\ UNCHANGED LgVars /\ UNCHANGED acc /\ UNCHANGED RmVars
   /\ bpc = "proc"
   /\ LET i == MinIdx(cache) IN
      IF i = 0
@@ -273,6 +310,10 @@ BProc ==
                                  "C03/C05/C08/C17: duplicate, out of thread order, dropped-yet-written, through a freed logger, or out of timestamp order")
                   /\ bpc' = "popped"
                   /\ Step("B", "proc", <<t>>, <<[k |-> "write", s |-> "S0", id |-> e.id, lvl |-> 4, ts |-> e.ts, thr |-> FALSE]>>)
+             ELSE IF e.kind = "rmreq"
+             THEN \* a logger removal request carries nothing to write
+                  /\ UNCHANGED <<written, flushedTo, bad, flushWho>> /\ bpc' = "popped"
+                  /\ Step("B", "proc", <<t>>, <<>>)
              ELSE \* flush request: flush every sink, remember whom to notify
                   /\ flushedTo' = Len(written) /\ UNCHANGED <<written, bad>>
                   /\ bpc' = "poppedflush" /\ flushWho' = e.t
@@ -282,7 +323,7 @@ BProc ==
 
 \* from the hook after pop_front to the next yield point (single: poll end; batch: BATCH_ITER)
 BAfterPop ==
-  /\ UNCHANGED LgVars /\ UNCHANGED acc
+  /\ UNCHANGED LgVars /\ UNCHANGED acc /\ UNCHANGED RmVars
   /\ bpc \in {"popped", "poppedflush"}
   /\ IF bpc = "poppedflush"
      THEN \* clean up invalidated contexts, then release the caller (the flag of the flush whose event was just popped)
@@ -303,7 +344,7 @@ BAfterPop ==
 
 \* batch loop: has_pending...() again (cache reload first); TRUE ends the poll
 BBatchIter ==
-  /\ UNCHANGED LgVars /\ UNCHANGED acc
+  /\ UNCHANGED LgVars /\ UNCHANGED acc /\ UNCHANGED RmVars
   /\ bpc = "batchiter"
   /\ cache' = Reload(cache) /\ newFlag' = FALSE
   /\ bpc' = IF HasPending(Reload(cache)) THEN "start" ELSE "proc"
@@ -313,14 +354,14 @@ BBatchIter ==
 
 \* idle branch, one action per hook
 BIdle0 ==      \* force flush all sinks
-  /\ UNCHANGED LgVars /\ UNCHANGED acc
+  /\ UNCHANGED LgVars /\ UNCHANGED acc /\ UNCHANGED RmVars
   /\ bpc = "idle0" /\ bpc' = "idle1" /\ flushedTo' = Len(written)
   /\ UNCHANGED <<now, fpc, cur, nlog, nflush, need, flag, q, wpos, rpos, rpub, fail, valid, reg, ctxs, newFlag, invalidCnt, cache, ring,
                  bi, tsNow, batchMode, lastIdle, flushWho, written, nid, dropped, reported, anyLate, bad>>
   /\ Step("B", "idle0", <<>>, <<[k |-> "sflush", s |-> "S0", thr |-> FALSE]>>)
 
 BIdle1 ==      \* report and reset failure counters of the cached contexts
-  /\ UNCHANGED LgVars /\ UNCHANGED acc
+  /\ UNCHANGED LgVars /\ UNCHANGED acc /\ UNCHANGED RmVars
   /\ bpc = "idle1" /\ bpc' = "idle2"
   /\ LET rep == IF Bounded THEN SumFail(Range(cache)) ELSE 0 IN
      /\ reported' = reported + (IF Dropping THEN rep ELSE 0)
@@ -330,7 +371,7 @@ BIdle1 ==      \* report and reset failure counters of the cached contexts
                  tsNow, batchMode, lastIdle, flushWho, written, flushedTo, nid, dropped, anyLate, bad>>
 
 BIdle2 ==      \* are all queues and rings empty? (cache reload first)
-  /\ UNCHANGED LgVars /\ UNCHANGED acc
+  /\ UNCHANGED LgVars /\ UNCHANGED acc /\ UNCHANGED RmVars
   /\ bpc = "idle2"
   /\ cache' = Reload(cache) /\ newFlag' = FALSE
   /\ bpc' = IF \A i \in 1..Len(Reload(cache)) : q[Reload(cache)[i]] = <<>> /\ ring[Reload(cache)[i]] = <<>> THEN "idle3" ELSE "start"
@@ -357,6 +398,8 @@ BIdle3 ==      \* clean up invalidated contexts, then invalidated loggers (and s
      /\ fail' = [t \in Threads |-> IF t \in rem /\ ReportOnRemove THEN 0 ELSE fail[t]]
      /\ reported' = reported + rep
      /\ lgPresent' = [l \in Loggers |-> lgPresent[l] /\ l \notin gone]
+     /\ rmDone' = [t \in Threads |-> rmDone[t] \/ \E l \in gone : rmWait[l] = t]
+     /\ rmWait' = [l \in Loggers |-> IF l \in gone THEN "" ELSE rmWait[l]]
      /\ hasInval' = IF doLg THEN (pend \ gone) # {} ELSE hasInval
      /\ UNCHANGED lgValid
      \* C20 on the model: after an idle poll that found everything empty, retained contexts = live threads that logged
@@ -370,7 +413,8 @@ BIdle3 ==      \* clean up invalidated contexts, then invalidated loggers (and s
 
 Next == \/ \E t \in Threads : \/ \E sz \in Sizes, l \in Loggers : LogStart(t, sz, l)
                               \/ Enqueue(t) \/ Retry(t) \/ FlushStart(t) \/ FlushCheck(t) \/ ThreadExit(t)
-        \/ (\E l \in Loggers : RemoveLogger(l)) \/ Tick \/ BStart \/ BRead \/ BProc \/ BAfterPop \/ BBatchIter \/ BIdle0 \/ BIdle1 \/ BIdle2 \/ BIdle3
+        \/ (\E l \in Loggers : RemoveLogger(l)) \/ (\E t \in Threads, l \in Loggers : RemoveBlockingStart(t, l))
+        \/ (\E t \in Threads : RemoveBlockingCheck(t)) \/ Tick \/ BStart \/ BRead \/ BProc \/ BAfterPop \/ BBatchIter \/ BIdle0 \/ BIdle1 \/ BIdle2 \/ BIdle3
 Spec == Init /\ [][Next]_vars
 BackendNext == BStart \/ BRead \/ BProc \/ BAfterPop \/ BBatchIter \/ BIdle0 \/ BIdle1 \/ BIdle2 \/ BIdle3
 FairSpec == Spec /\ WF_vars(BackendNext) /\ \A t \in Threads : WF_vars(Retry(t)) /\ WF_vars(FlushCheck(t)) /\ WF_vars(Enqueue(t))
@@ -381,7 +425,7 @@ NoBad == bad = ""                       \* the per-action checks of C03 C05 C06 
 NoStall == \A t \in Threads : (fpc[t] = "blocked" /\ q[t] = <<>> /\ ring[t] = <<>> /\ bpc = "start" /\ lastIdle /\ cur[t].sz <= Cap)
                                => Fits(t, cur[t].sz)
 \* C08: when everything is quiet the reported discards add up (bounded dropping)
-Quiet == bpc = "start" /\ lastIdle /\ \A t \in Threads : fpc[t] \in {"idle", "done"} /\ q[t] = <<>> /\ ring[t] = <<>> /\ fail[t] = 0
+Quiet == bpc = "start" /\ lastIdle /\ \A t \in Threads : fpc[t] \in {"idle", "done", "rmwait"} /\ q[t] = <<>> /\ ring[t] = <<>> /\ fail[t] = 0
 DropsAddUp == (Bounded /\ Dropping /\ Quiet) => reported = Cardinality(dropped)
 \* C03: at quiet points everything accepted has been written
 AllDelivered == Quiet => \A id \in acc : \E i \in 1..Len(written) : written[i].id = id
@@ -392,7 +436,7 @@ Resumes == \A t \in Threads : (fpc[t] = "blocked" /\ cur[t].sz <= Cap) ~> (fpc[t
 FlushReturns == \A t \in Threads : (fpc[t] = "flushwait") ~> (fpc[t] = "idle")
 
 StateView == <<now, fpc, cur, nlog, nflush, need, flag, q, wpos, rpos, rpub, fail, valid, reg, ctxs, newFlag, invalidCnt,
-               cache, ring, bpc, bi, tsNow, batchMode, lastIdle, flushWho, written, flushedTo, lgValid, lgPresent, hasInval, acc,
+               cache, ring, bpc, bi, tsNow, batchMode, lastIdle, flushWho, written, flushedTo, rmWait, rmDone, lgValid, lgPresent, hasInval, acc,
                nid, dropped, reported, anyLate, bad>>
 ExportA == Export => PrintT("BEH " \o ToJson(hist'))
 =============================================================================
